@@ -40,6 +40,10 @@ class TaggerInfo:
 State = Tuple[FrozenSet[str], FrozenSet[str]]
 
 
+def prog_is_cell_veto(g: "ConfigGraph", t: "TaggerInfo") -> bool:
+    return g.prog.is_subclass(t.handler_cls, "CellVetoEventHandler")
+
+
 class ConfigGraph:
     def __init__(self, prog: Program, cfg: IniConfig, facts_cache: Dict[str, HandlerFacts]) -> None:
         self.prog, self.cfg = prog, cfg
@@ -146,6 +150,17 @@ class ConfigGraph:
                         note("R8.1-I3c-mode-switch", t, stag, not bad3,
                              f"`{t.tag}` switches which units move independently, but the pending `{stag}` event, whose "
                              f"candidate depends on the shape of the active state, survives (history: {tr} -> {t.tag})")
+                    if ("C10" in rules or "C18" in rules) and t.facts and sv.facts:
+                        moved = t.facts.snaps_position and t.state_label is not None and sv.state_label == t.state_label
+                        if "C10" in rules:
+                            note("R10.6-families-follow-active-cell", t, stag, not moved,
+                                 f"`{t.tag}` moves the active unit into another cell of `{t.state_label}`, but the pending candidates of "
+                                 f"`{stag}`, generated for the nearby / excluded / surplus cells of the previous active cell, survive: "
+                                 f"partners are treated twice or missed (history: {tr} -> {t.tag})")
+                        if "C18" in rules and sv.handler_cls is not None and prog_is_cell_veto(self, sv):
+                            note("R18.6-veto-candidate-follows-active-cell", t, stag, not moved,
+                                 f"`{t.tag}` moves the active unit into another cell, but the pending cell-veto candidate of `{stag}` "
+                                 f"keeps the target cell computed as offset from the previous active cell (history: {tr} -> {t.tag})")
                 if "C09" in rules and not (t.facts and t.facts.ends_run):
                     for stag in sorted(a2):
                         sv = self.by_tag[stag]
